@@ -193,8 +193,10 @@ class NUTS(Sampler):
             raise ValueError('Target must have logd and gradient methods.')
 
     def reinitialize(self):
-        # Call the parent reset method
+        # Call the parent reset method (max_depth is a state key, so keep the configured value)
+        max_depth = self.max_depth
         super().reinitialize()
+        self.max_depth = max_depth
         # Reset NUTS run diagnostic attributes
         self._reset_run_diagnostic_attributes()
 
